@@ -132,13 +132,16 @@ func (c *Ctx) Check(ok bool, construct, pos, okMsg, failMsg, detail string) bool
 	return ok
 }
 
-// Floor asserts that a rule matched at least min instances.
+// Floor asserts that a rule matched at least min instances. A floor guards against a rule that passes vacuously (an
+// anchor stopped resolving, a matcher stopped matching): where the count is fixed by the exported API (eight
+// executors, four Build methods) it is the count confirmed by hand; where behaviour-preserving restructuring can
+// merge instances (three selects into one generic helper) it is about half of it.
 func (c *Ctx) Floor(what string, got, min int) {
 	construct := "floor:" + what
 	if got >= min {
 		c.add(&Obligation{Construct: construct, OK: true, Msg: fmt.Sprintf("%d instances (floor %d)", got, min)})
 	} else {
-		c.add(&Obligation{Construct: construct, OK: false, Reason: "floor", Msg: fmt.Sprintf("rule matched %d instances of %s, fewer than the %d confirmed by hand", got, what, min)})
+		c.add(&Obligation{Construct: construct, OK: false, Reason: "floor", Msg: fmt.Sprintf("rule matched %d instances of %s, fewer than the floor of %d derived from the hand-confirmed inventory", got, what, min)})
 	}
 }
 
